@@ -51,7 +51,7 @@ pub fn layer_a_check(prop: &str, tier: &str) -> i32 {
     let mut idx = 0u64;
     let mut params: BTreeMap<String, Value> = BTreeMap::new();
     params.insert("max_ops".into(), json!(if tier == "quick" { 40 } else { 60 }));
-    if matches!(prop, "C02" | "C11" | "C14" | "C16") {
+    if matches!(prop, "C02" | "C11" | "C14" | "C16" | "C15") {
         params.insert("allow_restart".into(), json!(true));
     }
     for (p, b) in &corpus.progs {
@@ -78,6 +78,7 @@ pub fn layer_a_check(prop: &str, tier: &str) -> i32 {
         "C05" => ("one case = one (program, history) where at every stop inside traced code the backtrace, CFA and return address are compared with the shadow stack of the reference tracer; distinct = distinct canonical event log; non-trivial = at least 3 operations", vec!["c05.backtrace_checked", "c05.frame_info_checked", "c05.recursive_stack"], "exploration"),
         "C11" => ("one case = one (program, history ending in drop / detach / restart / exit at a stop of some kind); after teardown the namespace's process table, the text and debug registers at the moment of PTRACE_DETACH, the completion of a detached process, breakpoints across restart and reported exit codes are checked; distinct = distinct canonical event log; non-trivial = at least 3 operations", vec!["c11.drop_checked", "c11.detach_checked", "c11.restart_checked", "c11.drop_in_state_stopped", "c11.drop_in_state_exited"], "exploration"),
         "C14" => ("one case = one (program, history of watchpoint add/remove by number/address interleaved with continue/finish/restart); after every operation DR0-3/DR7 of the tracee are read by the harness (PTRACE_PEEKUSER) and compared with a 4-slot model, refusals must be side-effect free; distinct = distinct canonical event log; non-trivial = at least 3 operations", vec!["c14.add_checked", "c14.dr_image_checked_nonempty", "c14.duplicate_refused", "c14.fifth_refused"], "exploration"),
+        "C15" => ("one case = one (program, history) in which memory reads (any alignment, around mapping/page/word boundaries, lengths 0..3 pages), one-word writes (verified against a byte mirror of the mapping and its neighbours, then restored), register write/read-back (all other registers compared through PTRACE_GETREGS) and function disassembly with breakpoints armed inside (instruction boundaries vs llvm-objdump of the file) are interleaved with execution; distinct = distinct canonical event log; non-trivial = at least 3 operations", vec!["c15.read_ok_compared", "c15.read_fault_reported", "c15.write_ok", "c15.write_fault_reported", "c15.reg_roundtrip_ok", "c15.disasm_checked", "c15.disasm_with_breakpoints_inside"], "exploration"),
         "C16" => ("one case = one (program, history with injected calls of 0/2/3/6-parameter functions with boundary literals and uncallable requests at random stops); registers, maps, text, position and the callee's own argument log are compared before/after; distinct = distinct canonical event log; non-trivial = at least 3 operations", vec!["c16.call_checked", "c16.call_succeeded", "c16.bad_call_checked"], "exploration"),
         _ => ("layer A run", vec![], "exploration"),
     };
@@ -167,7 +168,7 @@ pub fn dap_check(prop: &str, tier: &str) -> i32 {
 
 pub fn check(prop: &str, tier: &str) -> i32 {
     match prop {
-        "C01" | "C02" | "C03" | "C05" | "C11" | "C14" | "C16" => layer_a_check(prop, tier),
+        "C01" | "C02" | "C03" | "C05" | "C11" | "C14" | "C15" | "C16" => layer_a_check(prop, tier),
         "C12" => dap_check(prop, tier),
         _ => {
             eprintln!("no check for {prop}");
